@@ -75,6 +75,7 @@ fn main() {
     "c13" => props::c13::run(&cfg),
     "c20" => props::c20::run(&cfg),
     "c07" => props::c07::run(&cfg),
+    "c16" => props::c16::run(&cfg),
     _ => {
       eprintln!("unknown property {}", prop);
       std::process::exit(2);
